@@ -40,11 +40,15 @@ type vec struct {
 	Secure     bool
 	Subdomains string
 	ran        bool // the handler ran (a wire request can be refused by the server before)
+	// BaseURL() read again in the same request: after other users of pooled buffers (Links, String,
+	// JSONP) and, last, after a second request was served by the same app in between
+	BaseURL2, BaseURL3 string
 }
 
 func (v *vec) m() map[string]any {
 	return map[string]any{"IsProxyTrusted": v.Trusted, "IP": v.IP, "Host": v.Host, "Hostname": v.Hostname,
-		"Scheme": v.Scheme, "BaseURL": v.BaseURL, "Secure": v.Secure, "Subdomains": v.Subdomains}
+		"Scheme": v.Scheme, "BaseURL": v.BaseURL, "Secure": v.Secure, "Subdomains": v.Subdomains,
+		"BaseURL_second_read": v.BaseURL2, "BaseURL_third_read": v.BaseURL3}
 }
 
 // diff names the accessors in which two vectors differ (fixed order).
@@ -85,11 +89,12 @@ type config struct {
 	loopback, private, linkLocal bool
 	proxyHeader                  string
 	validate                     bool
+	immutable                    bool
 }
 
 func (c *config) m() map[string]any {
 	return map[string]any{"Proxies": c.proxies, "Loopback": c.loopback, "Private": c.private, "LinkLocal": c.linkLocal,
-		"ProxyHeader": c.proxyHeader, "EnableIPValidation": c.validate}
+		"ProxyHeader": c.proxyHeader, "EnableIPValidation": c.validate, "Immutable": c.immutable}
 }
 
 // membership is the reference decision: the reasons the peer is in the configured set, and
@@ -353,6 +358,7 @@ func genConfig(r *gen.Rand, peer netip.Addr) *config {
 	c.linkLocal = r.Chance(1, 4)
 	c.proxyHeader = gen.Pick(r, []string{"", "X-Forwarded-For", "X-Forwarded-For", "X-Real-IP", "Cf-Connecting-Ip", "Fly-Client-IP"})
 	c.validate = r.Bool()
+	c.immutable = r.Chance(1, 6)
 	return c
 }
 
@@ -447,12 +453,16 @@ type pair struct {
 	ipSent  bool
 	dup     bool
 
-	http10 bool              // wire path: HTTP/1.0 request line
-	wire   bool              // parsed from wire bytes (raw header block keeps the sent spelling) instead of direct drive
-	extra  []fwd             // other request headers, sent with both twins
-	likeOf map[string]string // lower-cased look-alike header name in hdrs -> the documented name it resembles
-	donor  *config           // the app is built from another app's Config() whose trust settings were then replaced by cfg
-	app    *fiber.App
+	jsonp    bool          // the handler also calls JSONP between two BaseURL() reads
+	nested   bool          // the handler drives a second request through the app before the last BaseURL() read
+	firstApp *drive.Direct // config-from-another-app: that other app, kept in service
+	firstVec *vec
+	http10   bool              // wire path: HTTP/1.0 request line
+	wire     bool              // parsed from wire bytes (raw header block keeps the sent spelling) instead of direct drive
+	extra    []fwd             // other request headers, sent with both twins
+	likeOf   map[string]string // lower-cased look-alike header name in hdrs -> the documented name it resembles
+	donor    *config           // the app is built from another app's Config() whose trust settings were then replaced by cfg
+	app      *fiber.App
 }
 
 type tlsScript struct{ *drive.ScriptConn }
@@ -496,6 +506,7 @@ func fiberConfig(cfg *config) fiber.Config {
 			Loopback: cfg.loopback, Private: cfg.private, LinkLocal: cfg.linkLocal},
 		ProxyHeader:        cfg.proxyHeader,
 		EnableIPValidation: cfg.validate,
+		Immutable:          cfg.immutable,
 	}
 }
 
@@ -507,17 +518,32 @@ func observe(p *pair) (*drive.Direct, *vec) {
 		app = fiber.New(fiberConfig(cfg))
 	} else {
 		// the documented way to derive one app's configuration from another's: take Config(), change
-		// exported fields, pass it to New. Only the exported fields of what is passed count.
-		fc := fiber.New(fiberConfig(p.donor)).Config()
+		// exported fields, pass it to New. Only the exported fields of what is passed count. The first
+		// app stays in service: it is probed again after the second one was built.
+		first := fiber.New(fiberConfig(p.donor))
+		fv := &vec{}
+		first.Get("/", func(c fiber.Ctx) error {
+			fv.ran = true
+			fv.Trusted = c.IsProxyTrusted()
+			return nil
+		})
+		p.firstApp, p.firstVec = drive.NewDirect(first), fv
+		fc := first.Config()
 		fc.TrustProxyConfig.Proxies = nil
 		if len(cfg.proxies) > 0 {
 			fc.TrustProxyConfig.Proxies = append([]string(nil), cfg.proxies...)
 		}
 		fc.TrustProxyConfig.Loopback, fc.TrustProxyConfig.Private, fc.TrustProxyConfig.LinkLocal = cfg.loopback, cfg.private, cfg.linkLocal
-		fc.ProxyHeader, fc.EnableIPValidation = cfg.proxyHeader, cfg.validate
+		fc.ProxyHeader, fc.EnableIPValidation, fc.Immutable = cfg.proxyHeader, cfg.validate, cfg.immutable
 		app = fiber.New(fc)
 	}
 	p.app = app
+	var d *drive.Direct
+	app.Get("/inner", func(c fiber.Ctx) error {
+		_ = c.BaseURL()
+		c.Links("https://inner.example/list?page=2", "next")
+		return c.SendString(c.String())
+	})
 	app.Get("/", func(c fiber.Ctx) error {
 		v.ran = true
 		v.Trusted = c.IsProxyTrusted()
@@ -530,9 +556,22 @@ func observe(p *pair) (*drive.Direct, *vec) {
 		// Join returns a lone element as it is, and that may point into the request buffer, which the
 		// server reuses for the next wire request: copy, as for every other accessor
 		v.Subdomains = strings.Clone(strings.Join(c.Subdomains(), ","))
+		// the rest of a handler's life: other helpers that borrow pooled buffers, then BaseURL() again
+		c.Links("https://pooled.example/list?page=2", "next", "https://pooled.example/list?page=9", "last")
+		_ = c.String()
+		if p.jsonp {
+			_ = c.JSONP(fiber.Map{"pooled": "buffer-user", "n": 123456789}, "callback")
+		}
+		v.BaseURL2 = strings.Clone(c.BaseURL())
+		if p.nested {
+			// a second request served by the same app while this one is still being handled
+			d.Do(&drive.Req{Method: "GET", URI: "/inner", Host: "inner-request.example:8443", Remote: p.remote})
+		}
+		v.BaseURL3 = strings.Clone(c.BaseURL())
 		return nil
 	})
-	return drive.NewDirect(app), v
+	d = drive.NewDirect(app)
+	return d, v
 }
 
 func (p *pair) do(d *drive.Direct, v *vec, hdrs []fwd) vec {
@@ -714,6 +753,7 @@ func genPair(r *gen.Rand) *pair {
 		p.host = "" // no Host header at all: HTTP/1.0 clients, health checkers
 	}
 	p.http10 = r.Chance(1, 4)
+	p.jsonp, p.nested = r.Bool(), r.Chance(1, 3)
 	p.tls = r.Chance(1, 4)
 
 	// forwarding headers of twin A
@@ -822,6 +862,56 @@ func genPair(r *gen.Rand) *pair {
 	return p
 }
 
+// probeFirstApp: the app whose Config() was reused keeps serving. Its own proxy set (the exported
+// fields it was built from) must still decide, now that a second app was built from its Config()
+// with other / more / fewer entries.
+func (p *pair) probeFirstApp(e *ev.Env, c *ev.Case, input map[string]any) {
+	probes := []netip.Addr{p.peer.Unmap().WithZone("")}
+	for _, cf := range []*config{p.cfg, p.donor} {
+		for _, en := range cf.proxies {
+			if pf, err := netip.ParsePrefix(en); err == nil && !pf.Addr().Is4In6() {
+				probes = append(probes, pf.Masked().Addr())
+			} else if a, err := netip.ParseAddr(en); err == nil && a.Zone() == "" {
+				probes = append(probes, a.Unmap())
+			}
+		}
+	}
+	if len(probes) > 7 {
+		probes = probes[:7]
+	}
+	for _, a := range probes {
+		ref := reference(p.donor, a)
+		if ref.ambiguous != "" {
+			continue
+		}
+		*p.firstVec = vec{}
+		if e.Guard(c, "C10|panic", input, func() {
+			p.firstApp.Do(&drive.Req{Method: "GET", URI: "/", Host: "first-app.example", Remote: tcp(a.String())})
+		}) {
+			return
+		}
+		e.Eval(1)
+		e.Stat("first_app_probes_after_config_reuse", 1)
+		want := len(ref.reasons) > 0
+		if p.firstVec.Trusted == want {
+			continue
+		}
+		second := "second-app-does-not-list-peer"
+		if r2 := reference(p.cfg, a); len(r2.reasons) > 0 {
+			second = "second-app-lists-peer"
+		}
+		detail := map[string]any{"input": input, "probe_peer": a.String(), "second_app": second, "first_app_IsProxyTrusted": p.firstVec.Trusted, "first_app_reference_reasons": ref.reasons}
+		if want {
+			e.Violation(c, "C10|trusted-peer-rejected|Ctx.IsProxyTrusted|first-app-after-its-config-was-reused",
+				"the app whose Config() was passed to another New no longer trusts a peer of its own proxy set", detail)
+		} else {
+			e.Violation(c, "C10|untrusted-peer-trusted|Ctx.IsProxyTrusted|first-app-after-its-config-was-reused",
+				"the app whose Config() was passed to another New now trusts a peer outside its own proxy set", detail)
+		}
+		return
+	}
+}
+
 // documented returns twin A's headers without the look-alike ones.
 func (p *pair) documented() []fwd {
 	var out []fwd
@@ -906,6 +996,9 @@ func judge(e *ev.Env, c *ev.Case, p *pair) {
 	if p.host == "" {
 		e.Stat("pairs_without_host_header", 1)
 	}
+	if p.firstApp != nil {
+		p.probeFirstApp(e, c, input)
+	}
 	e.Eval(2)
 	if len(p.likeOf) > 0 && (!p.wire || A0.ran) {
 		// only the documented field names count: the same request without the look-alike headers
@@ -976,6 +1069,15 @@ func judge(e *ev.Env, c *ev.Case, p *pair) {
 	for _, o := range []*vec{&A, &B} {
 		if o.BaseURL != o.Scheme+"://"+o.Host {
 			e.Violation(c, "C10|base-url|Ctx.BaseURL|not-scheme-plus-host", "BaseURL() != Scheme()+\"://\"+Host()", detail(nil))
+			break
+		}
+		if want := o.Scheme + "://" + o.Host; o.BaseURL2 != want || o.BaseURL3 != want {
+			cl := "after-other-pooled-buffer-users"
+			if o.BaseURL2 == want {
+				cl = "after-another-request-was-served"
+			}
+			e.Violation(c, "C10|base-url|Ctx.BaseURL|later-read-in-same-request-differs|"+cl,
+				"BaseURL() read again later in the same request is no longer Scheme()+\"://\"+Host()", detail(nil))
 			break
 		}
 	}
